@@ -692,19 +692,19 @@ theorem newComponent_eq_addHandlers (E : Enc) (cs : Classes) (c : Str) (s : St) 
 /-- collapsing changes no membership: the same rows are in the tables -/
 theorem dedup_same_rows {α} [BEq α] [LawfulBEq α] (l : List α) (y : α) : y ∈ dedup l ↔ y ∈ l := mem_dedup l y
 
-/-- exact equality when no row is repeated.  `_partial`: without the hypothesis the two states differ in the number
-    of equal rows (`newComponent_repeated_row_witness`); the statement for all inputs is `newComponent_eq_addHandlers`. -/
+/-- exact equality when no record names an event twice (after encoding).  `_partial`: without the hypothesis the two
+    states differ in the number of equal rows (`newComponent_repeated_row_witness`); the statement for all inputs is
+    `newComponent_eq_addHandlers`.  (Rows of different records never coincide, `_globals` never repeats: proved.) -/
 theorem newComponent_eq_addHandlers_partial (E : Enc) (cs : Classes) (c : Str) (s : St)
-    (h1 : (tableOf E s.hs.length 0 (effectiveHandlers cs c)).Nodup)
-    (h2 : (globalsOf s.hs.length 0 (effectiveHandlers cs c)).Nodup) :
+    (hn : ∀ r ∈ effectiveHandlers cs c, (r.names.map E.name).Nodup) :
     markDirty (installAll (blankComponent E cs c s) s.hs.length (effectiveHandlers cs c).length) s.comps.length =
       newComponent E cs c s := by
-  rw [init_eq_newComponent, dedupTables_of_nodup E cs c s h1 h2]
+  rw [init_eq_newComponent, dedupTables_of_nodup E cs c s (tableOf_nodup E _ _ hn 0) (globalsOf_nodup _ _ 0)]
 
-/-- non-vacuity: `demo`'s class `M` has no repeated row -/
+/-- non-vacuity: no record of `demo`'s class `M` names an event twice -/
 example :
     let E : Enc := { name := fun s => ⟨s.length, []⟩, chan := fun s => s.length }
-    (tableOf E 0 0 (effectiveHandlers demo "M".toList)).Nodup ∧ (globalsOf 0 0 (effectiveHandlers demo "M".toList)).Nodup := by
+    ∀ r ∈ effectiveHandlers demo "M".toList, (r.names.map E.name).Nodup := by
   decide
 
 /-- `@handler("a", "a")`: one row in the set, two equal rows in `tableOf` -/
